@@ -449,7 +449,7 @@ func (p *c04) Shrink(scAny any) []any {
 
 func (p *c04) Info() PropInfo {
 	return PropInfo{
-		Rule: "per seeded configuration (capability subset of {8BITMIME, SMTPUTF8, DSN, ENHANCEDSTATUSCODES, STARTTLS, AUTH}, optionally a different set after STARTTLS, EHLO refused, DSN options, WithoutNoop, TLS policy, PLAIN auth, 1..3 messages x 1..3 recipients with drawn encodings, in one batch of eight a message whose body writer fails half way, a nil message, a message without sender or a message without any recipient): the fault-free script, every single-fault script (each command position x {451, 550, disconnect, a positive reply that arrives after the client's timeout}); thorough adds every pair of faults; then sampled scripts with 1..5 faults on fresh configurations. Non-trivial = a fault is scripted and more than two commands were seen; distinct = distinct (configuration, sequence of command verbs and reply classes)",
+		Rule: "per seeded configuration (capability subset of {8BITMIME, SMTPUTF8, DSN, ENHANCEDSTATUSCODES, STARTTLS, AUTH}, optionally a different set after STARTTLS, EHLO refused, DSN options, WithoutNoop, TLS policy, PLAIN auth, 1..3 messages x 1..3 recipients with drawn encodings, in one batch of eight a message whose body writer fails half way, a nil message, a message without sender or a message without any recipient): the fault-free script, every single-fault script (each command position x {451, 550, disconnect, a positive reply that arrives after the client's timeout}); thorough adds every pair of faults; then sampled scripts with 1..5 faults on fresh configurations, a fifth of the DialAndSend ones followed by a second DialAndSend that reaches a peer with other capabilities. Non-trivial = a fault is scripted and more than two commands were seen; distinct = distinct (configuration, sequence of command verbs and reply classes)",
 		Assumptions: []string{"the reference automaton follows RFC 5321 section 4.1.4 with Postfix-like strictness: a refused DATA leaves the transaction open",
 			"part- or file-level 8bit is not judged, only the message encoding (the statement says '8bit messages')"},
 		Real:        []string{"go-mail Client (dial, TLS, auth, send, reset), smtp.Client", "net/textproto", "crypto/tls"},
